@@ -26,9 +26,12 @@ impl From<i64> for W {
 }
 impl Clone for W {
     fn clone(&self) -> W {
-        let a = self.a;
+        // volatile: with a shared reference the optimiser may otherwise merge or move the two loads
+        // across the call, hiding exactly the unsynchronised copy this type exists to expose
+        let a = unsafe { std::ptr::read_volatile(&self.a) };
         ds::yield_now("clone-mid");
-        W { a, b: self.b }
+        let b = unsafe { std::ptr::read_volatile(&self.b) };
+        W { a, b }
     }
 }
 impl assets_manager::Asset for W {
@@ -114,20 +117,20 @@ pub fn mk_window(p: &Value) -> Arc<Mk> {
                     for _ in 0..2 {
                         if mode == "mapped" {
                             let g = assets_manager::AssetReadGuard::map(h.read(), |l| &l.v);
-                            let a = *g;
+                            let a = unsafe { std::ptr::read_volatile(&*g) };
                             let id1 = format!("{:?}", h.last_reload_id());
                             ds::yield_now("hold");
-                            let b = *g;
+                            let b = unsafe { std::ptr::read_volatile(&*g) };
                             let id2 = format!("{:?}", h.last_reload_id());
                             if a != b || id1 != id2 {
                                 ds::log(format!("GUARD-BROKEN value {a}->{b} id {id1}->{id2}"));
                             }
                         } else {
                             let g = h.read();
-                            let a = g.v;
+                            let a = unsafe { std::ptr::read_volatile(&g.v) };
                             let id1 = format!("{:?}", h.last_reload_id());
                             ds::yield_now("hold");
-                            let b = g.v;
+                            let b = unsafe { std::ptr::read_volatile(&g.v) };
                             let id2 = format!("{:?}", h.last_reload_id());
                             if a != b || id1 != id2 {
                                 ds::log(format!("GUARD-BROKEN value {a}->{b} id {id1}->{id2}"));
